@@ -515,7 +515,8 @@ def function(
             setattr(
                 function_def.args,
                 defaults,
-                list(islice(cycle((None,)), 10)) + getattr(function_def.args, defaults),
+                list(islice(cycle((None,)), diff))
+                + getattr(function_def.args, defaults),
             )
 
     ir_merge(
